@@ -173,7 +173,7 @@ where
     }
 
     // interleaved substitutions on the same variables with different replacements, gc in between
-    for round in 0..ctx.by_tier(40, 400) {
+    for round in 0..ctx.by_tier(40, 4000) {
         let v = rng.below(3) as u32;
         let (p1, p2) = (palette[rng.usize(16)], palette[rng.usize(16)]);
         let s1 = Subst::new(vec![v], vec![all.funcs[p1].clone()]);
@@ -302,7 +302,7 @@ where
 
 pub fn random(ctx: &mut Ctx) {
     let mut rng = ctx.rng(0xC04_2);
-    let cases = ctx.by_tier(40, 400);
+    let cases = ctx.by_tier(40, 4000);
     random_kind::<Bdd>(ctx, &mut rng, cases);
     random_kind::<Bcdd>(ctx, &mut rng, cases);
     random_kind::<Zbdd>(ctx, &mut rng, cases);
